@@ -14,7 +14,7 @@ text = ('Each change compiles, keeps the pinned suite green (33 tests incl. doct
         'passes without it; each was confirmed by me in its worktree before being kept (`seeded/<id>/meta.json`: what it breaks, what it\n'
         'needs to manifest, what I ran). "witness" = the contract proof was UNDECIDED after the rewrite (lost anchor / construct outside the\n'
         'rules) or failed, and the native search produced a failing input that replays on the real code.  Seeds -1/-2 are the first round,\n'
-        '-3/-4 a second, -5/-6 a third, -7/-8 a fourth and -9/-10 a fifth round by fresh sub-agents after the checks had been strengthened; the recorded outcome is that of the FINAL machinery.\n'
+        '-3/-4 a second, -5/-6 a third, -7/-8 a fourth, -9/-10 a fifth and -11/-12 a sixth round by fresh sub-agents after the checks had been strengthened; the recorded outcome is that of the FINAL machinery.\n'
         'First-pass misses and what was strengthened: round 1 - C03-2 (push_null ownership), C17-2 / C08-2 (label ownership), C12-1 (ubjson unit),\n'
         'C13-2 (Frame-level transpose_one contracts), C05-1/2, C16-1/2, C19-1/2, C09-2 (no native fallback yet: c05/c16/c19/c09 oracles added),\n'
         'C02-1 (70000-frame candidates added), C07-2 (C07 now owns the reader-acceptance clause); round 2 - C06-4 (C06 now owns the Game Start\n'
@@ -33,8 +33,21 @@ text = ('Each change compiles, keeps the pinned suite green (33 tests incl. doct
         'only although a contract existed (read_peppi_metadata in the slpp unit): C16 now owns those clauses.  In this round 28 of 40 seeds\n'
         'restructured the code enough for an extraction anchor to be lost (contract proof UNDECIDED) and were caught by the native exploration;\n'
         'that is what prompted the completeness clauses of A.2.\n'
-        'First-pass detection: round 1 26/40, round 2 37/40, round 3 36/40, round 4 35/40, round 5 37/40; 200 of 200 with the final machinery\n'
-        '(`seeded/SELFTEST_final.txt`: replay of the first 160 against the final quick checks; `seeded/RUN_LOG5.txt`: round 5).\n\n'
+        'Round 6 (-11/-12; the agents were asked for SMALL LOCAL slips of 1-5 lines - a flipped or off-by-one comparison, a wrong constant, field or\n'
+        'threshold, a dropped statement - that keep the code structure, i.e. the kind of change contracts should see without the native fallback):\n'
+        '26 of 40 failed a named obligation on the first pass (31 with the final machinery); 14 were caught by the native exploration (11 because the\n'
+        'seed introduces a construct outside the shims or loses an anchor, 3 because no clause of the property\'s own contracts spoke about the change).  First-pass misses and what was\n'
+        'done: C02-11 (the .slp writer marks no Gecko block final when the list fills its last block: the c02 oracle used to leave a parsed game\n'
+        'that does not serialise to the original bytes to C01 - it now compares with the original bytes, as the property says), C08-11 (u16 overflow\n'
+        'for an unknown event declaring 65535 bytes: unknown-event sizes 1 / 5 / 700 / 65535 in the c08 and c06 oracles, the replay crate is built with\n'
+        'overflow checks, and a reader panic on a well-formed generated input now counts against the property under test, not only against C06),\n'
+        'C12-12 (the row view of a completed frame while the next is open: C12 now owns the in-progress row-view contracts and runs the c13 and c08\n'
+        'searches), C18-11 (a game with exactly ONE frame lost its frames.arrow: single-frame history 10 added).  Strengthened although caught:\n'
+        'C07-11 (the top-level closing brace dropped after a metadata element: the old clause was satisfied by the metadata map\'s own brace - new\n'
+        'clause C07.top_level_brace_after_metadata), C04-11 / C09-11 (hint anchors that quoted a constant or sat on a statement the seed moved:\n'
+        'prefix anchors and the body-start anchor `^`), C17-12 (C17 now owns gecko_codes).\n'
+        'First-pass detection: round 1 26/40, round 2 37/40, round 3 36/40, round 4 35/40, round 5 37/40, round 6 36/40; 240 of 240 with the final\n'
+        'machinery (`seeded/SELFTEST_final.txt`: replay of the first 160 against the quick checks of that time; `seeded/RUN_LOG5.txt`, `RUN_LOG6.txt`).\n\n'
         '| Seed | What it breaks | Outcome of the registered check(s) |\n|---|---|---|\n' + '\n'.join(rows) + '\n')
 p = os.path.join(V, 'DESIGN.md')
 s = open(p).read()
